@@ -1,35 +1,248 @@
-"""C06  Index bookkeeping matches a fresh index built from the current contents."""
-import importlib
+"""C06  Index bookkeeping matches a fresh index built from the current contents.
 
-from lib.core import exc_name
+One module for all index kinds.  The per-kind code lives in clearly separated blocks
+(`# ==== field ====`, `# ==== keyword ====`, `# ==== facet ====`); a kind is registered in the `KIND`
+table at the bottom of its block (generator, implementation wrapper, feature extractor, Lean module,
+theorem names).  Adding a kind (text) = adding one more block; nothing else changes.
+
+Commands shared by all kinds (one output line each, `model ## spec` on the Lean side):
+  index/reindex d v..   index_doc / reindex_doc
+  unreindex d v..       unindex_doc(d) then index_doc(d, v) (alternating with the inherited
+                        BaseIndexMixin.reindex_doc, which is literally that); the model runs ONE index step
+  unindex d, reset      (keyword/facet also: optimize, setthr n; keyword: indexstr d)
+  obs                   indexed, not_indexed, docids, the three counts, word_count, unique_values
+  obsfresh              the same tuple of a freshly built index over the current docid -> value mapping
+                        (real side: a new real index; model side: the model of a new index)
+  repr d / reprfresh d  document_repr (called with an explicit default and, alternately, with the implicit
+                        default None)
+  numdocs               the `_num_docs` Length of keyword/facet indexes: written by index_doc/unindex_doc,
+                        read by no method of these classes; probed as an attribute, skipped if absent
+
+Mutation sanity checks (scratch copies /var/tmp/mut_c06_<N>, VERIF_REPO, deleted afterwards; quick tier,
+seed 0).  All 22 gave VIOLATION with a shrunk replay (what manifested is given after `->`):
+  K1  keyword.unindex_doc: `_num_docs.change(-1)` dropped -> numdocs probe 2 != 1 after unindex+index
+      (no public method of KeywordIndex/FacetIndex reads `_num_docs`: only the attribute probe sees it)
+  K2  keyword.index_doc: `_not_indexed.remove(docid)` on re-index with a value dropped -> index none; index kw:
+      indexed/ni overlap
+  K3  keyword.unindex_doc: `del idx[word]` of an emptied posting dropped (stale forward index) -> wc/uv
+  K4  keyword.index_doc: `if old_kw: unindex_doc` on an empty list dropped -> kw -> []: still indexed, repr
+  K5  keyword.index_doc differential update: `del _fwd_index[word]` of an emptied posting dropped -> after a
+      changed-keyword re-index wc=4 uv=[3 5 7 9] instead of wc=2
+  K6  keyword.reset keeps an existing `_not_indexed` -> index none; reset: ni survives
+  K7  keyword.index_doc marker branch: unindex of the previous value dropped -> kw -> none: repr still a value
+  K8  keyword.unindex_doc: `break` after deleting the first emptied posting -> a second keyword keeps the id
+  K9  keyword._insert_forward: promotion to TreeSet loses a member (needs the threshold to be reached)
+      -> later unindex hits KeyError path, document stays indexed
+  K10 keyword.optimize: demotion to Set loses a member (needs setthr up + optimize) -> wc/uv after unindex
+  F1  facet.index_doc: unindex of the old value dropped -> stale prefix postings: uv=[1 1:4 1:4:6] for a
+      document now listed under 1 only (also numdocs)
+  F2  facet.index_doc: `_not_indexed.remove` dropped -> index none; index paths: ni keeps the id
+  F3  facet.index_doc: `_num_docs.change(1)` also when no facet matched -> numdocs probe
+  F4  facet.index_doc marker branch: unindex dropped -> indexed/ni overlap
+  F5  facet.document_repr reads the forward map -> repr
+  B1  BaseIndexMixin.docids: `len(indexed) == 0` short-cut returns an empty set -> only-withdrawn state
+  B2  BaseIndexMixin.docids_count = len(indexed()) -> dc with a withdrawn id
+  B3  BaseIndexMixin.docids: union(indexed, indexed) -> needs both sets non-empty
+  X1  field.document_repr ignores an explicit default -> repr with explicit marker
+  X2  field.unindex_doc: `del _fwd_index[value]` dropped -> wc/uv after a changed value
+  X3  field.index_doc: same-value short-cut bumps `_num_docs` -> ic=2 after re-indexing identical content
+  X4  field.document_repr: implicit default '' instead of None -> repr called without a default
+(K4 and F1 were re-run with the numdocs probe disabled: caught through the public API alone.)
+`BaseIndexMixin.reindex_doc` without its unindex_doc is an equivalent mutant for these three classes (their
+index_doc handles a known id itself); the three classes override reindex_doc by index_doc.
+"""
+import ast
+import importlib
+import re
+
+from lib.core import exc_name, idset
 
 ID = "C06"
-AUDIT_IMPORTS = ["HypatiaProofs.Properties.C06Field"]
-THEOREMS = ["Hyp.Field." + t for t in (
-    "c06_field_bookkeeping", "c06_field_fresh", "c06_field_history_independent", "c06_field_reindex",
-    "c06_field_unindex_unknown", "c06_field_unindex_erases", "c06_field_reset")]
-CASES = {"quick": 600, "thorough": 40000}
+CASES = {"quick": 2400, "thorough": 120000}
 BUDGET_S = {"quick": 45, "thorough": 700}
-RULE = ("histories of index/reindex/unindex/reset per index kind (field now; keyword, facet, text are added as "
-        "their models land) incl. re-indexing identical content, value <-> no value alternation, unindexing "
-        "unknown ids, reset in the middle, both BTrees families; after every operation the whole observable "
-        "tuple (indexed, not_indexed, docids, the three counts, word_count, unique_values) and document_repr of "
-        "touched ids are compared with the model, with the specification's table and with a freshly built "
-        "real index over the current mapping. non-trivial = at least 3 different observation tuples")
+RULE = ("histories of index/reindex/unindex+index/unindex/reset (keyword, facet: also optimize() and "
+        "tree_threshold changes over {1,2,3}, rarely 64) per index kind (field, keyword, facet; text is added "
+        "when its model lands) incl. re-indexing identical content (same list, reordered, with duplicates), "
+        "value <-> no value alternation, empty keyword/path lists on known and unknown ids, paths matching "
+        "no configured facet, unindexing unknown ids, reset in the middle, both BTrees families, attribute and "
+        "callable discriminators, list and tuple values; after every operation the whole observable tuple "
+        "(indexed, not_indexed, docids, the three counts, word_count, unique_values) and document_repr of "
+        "touched and random ids (explicit and implicit default) are compared with the model, with the "
+        "specification's table and with a freshly built real index over the current mapping; the hidden "
+        "_num_docs counter of keyword/facet is probed as an attribute. non-trivial = at least 3 different "
+        "observation tuples")
 LEVEL_TEXT = ("Lean 4: the refinement invariant makes every enumeration/statistics answer a function of the "
-              "current document table; proved consequences: fresh-index equivalence, history independence, "
-              "reindex = unindex+index, unindex of unknown ids is a no-op, unindex erases every trace, reset = "
-              "new index. Correspondence: real indexes vs compiled model vs fresh real index after every op")
-LEVEL_NOTE = ("trusted: Lean kernel, BTrees semantics as modelled, sampled correspondence, harness; currently "
-              "proved for the field index, other kinds covered by correspondence once their models are merged")
+              "current document table (field: docid -> value; keyword: docid -> keyword set; facet: docid -> "
+              "configured facets that are a ':'-prefix of a current path), for every history, every "
+              "tree_threshold and every placement of optimize(); proved consequences per kind: bookkeeping "
+              "identities, fresh-index equivalence, history independence, reindex = unindex+index, unindex of "
+              "unknown ids is a no-op (keyword/facet: the state is literally unchanged), unindex erases every "
+              "trace, reset = new index. Correspondence: real indexes vs compiled model vs specification "
+              "table vs fresh real index after every op")
+LEVEL_NOTE = ("trusted: Lean kernel, BTrees semantics as modelled, sampled correspondence, harness; proved for "
+              "the field, keyword and facet index; the text index is covered once its model is merged. "
+              "document_repr of keyword/facet is compared as the parsed OOSet repr (members in key order)")
 TECHNIQUE = "Lean 4 refinement invariant + observational-equivalence theorems; differential correspondence after every op"
 
 c01 = importlib.import_module("props.c01")
-KINDS = ["field"]
+c02 = importlib.import_module("props.c02")
+c13 = importlib.import_module("props.c13")
+
+KIND = {}                       # session name -> dict(gen, impl, features, imports, theorems)
+SEVEN = ("bookkeeping", "fresh", "history_independent", "reindex", "unindex_unknown", "unindex_erases", "reset")
 
 
-def gen(rng, tier, idx):
-    kind = rng.choice(KINDS)
+def _probes(rng, cmds, d, ids, fresh=True, numdocs=False):
+    """observations after one operation on docid `d`"""
+    cmds.append(["obs"])
+    if rng.random() < 0.3:
+        cmds.append(["obsfresh"])
+    if rng.random() < 0.5:
+        cmds.append(["repr", d])
+    if rng.random() < 0.2:
+        cmds.append(["repr", rng.choice(ids)])
+    if fresh and rng.random() < 0.1:
+        cmds.append(["reprfresh", rng.choice(ids)])
+    if numdocs and rng.random() < 0.3:
+        cmds.append(["numdocs"])
+
+
+def _tail(cmds, ids, fresh=True, numdocs=False):
+    cmds.append(["obs"])
+    cmds.append(["obsfresh"])
+    if numdocs:
+        cmds.append(["numdocs"])
+    for d in ids[:6]:
+        cmds.append(["repr", d])
+        if fresh:
+            cmds.append(["reprfresh", d])
+
+
+def _index_verb(rng):
+    return rng.choice(["index", "index", "reindex", "unreindex"])
+
+
+class _Base(object):
+    """what the kinds share on the implementation side: the current docid -> value mapping, the freshly
+    built index, the observation tuple, document_repr with both call shapes"""
+
+    def setup(self, cfg):
+        self.current = {}
+        self.nrepr = 0
+        self.nre = 0
+
+    def fresh(self):
+        f = self.mk()
+        for d, toks in self.current.items():
+            f.index_doc(d, self.doc(toks))
+        return f
+
+    def uv(self, idx):          # canonical unique_values
+        raise NotImplementedError
+
+    def obs(self, idx):
+        return "indexed=%s ni=%s docids=%s ic=%d nic=%d dc=%d wc=%d uv=[%s]" % (
+            idset(idx.indexed()), idset(idx.not_indexed()), idset(idx.docids()), idx.indexed_count(),
+            idx.not_indexed_count(), idx.docids_count(), idx.word_count(), self.uv(idx))
+
+    def show_repr(self, idx, d):
+        self.nrepr += 1
+        if self.nrepr % 2:
+            default = object()
+            r = idx.document_repr(d, default)
+        else:
+            default = None
+            r = idx.document_repr(d)
+        if r is default:
+            return "none"
+        if not isinstance(r, str):
+            return "repr-not-a-string %r" % (r,)
+        return self.canon_repr(r)
+
+    def unreindex(self, d, obj):
+        """unindex_doc + index_doc, literally and through the inherited BaseIndexMixin.reindex_doc"""
+        self.nre += 1
+        if self.nre % 2:
+            self.idx.unindex_doc(d)
+            self.idx.index_doc(d, obj)
+        else:
+            from hypatia.util import BaseIndexMixin
+            BaseIndexMixin.reindex_doc(self.idx, d, obj)
+
+    def execute(self, c):
+        try:
+            op = c[0]
+            if op in ("index", "reindex", "unreindex"):
+                self.current[c[1]] = list(c[2:])
+                obj = self.doc(list(c[2:]))
+                if op == "index":
+                    self.idx.index_doc(c[1], obj)
+                elif op == "reindex":
+                    self.idx.reindex_doc(c[1], obj)
+                else:
+                    self.unreindex(c[1], obj)
+                return "ok"
+            if op == "unindex":
+                self.current.pop(c[1], None)
+                self.idx.unindex_doc(c[1])
+                return "ok"
+            if op == "reset":
+                self.current = {}
+                self.idx.reset()
+                return "ok"
+            if op == "obs":
+                return self.obs(self.idx)
+            if op == "obsfresh":
+                return self.obs(self.fresh())
+            if op == "repr":
+                return self.show_repr(self.idx, c[1])
+            if op == "reprfresh":
+                return self.show_repr(self.fresh(), c[1])
+            if op == "numdocs":
+                nd = getattr(self.idx, "_num_docs", None)
+                return None if nd is None else str(nd())
+            return self.execute_more(c)
+        except Exception as e:
+            return exc_name(e)
+
+    def execute_more(self, c):
+        raise ValueError(c)
+
+
+def _hist_features(case, outs, value_class):
+    """transition histogram shared by the kinds: what a docid had -> what it gets"""
+    k = case["session"]
+    f = ["kind:" + k]
+    last = {}
+    for c, o in zip(case["cmds"], outs):
+        if c[0] in ("index", "reindex", "unreindex"):
+            prev = last.get(c[1], "unknown")
+            now = value_class(c[2:])
+            same = "(same)" if prev == now and now != "none" and c[2:] == last.get(("raw", c[1])) else ""
+            f.append("%s:%s->%s%s" % (k, prev, now, same))
+            f.append("%s:via-%s" % (k, c[0]))
+            last[c[1]] = now
+            last[("raw", c[1])] = c[2:]
+        elif c[0] == "unindex":
+            f.append("%s:unindex:%s" % (k, "known" if c[1] in last else "unknown"))
+            last.pop(c[1], None)
+            last.pop(("raw", c[1]), None)
+        elif c[0] == "reset":
+            last = {}
+            f.append(k + ":reset")
+        elif c[0] in ("repr", "reprfresh"):
+            f.append("%s:%s:%s" % (k, c[0], "default" if o == "none" else "value"))
+        elif c[0] in ("optimize", "setthr", "indexstr", "numdocs", "obsfresh"):
+            f.append(c[0] if c[0] != "setthr" else "setthr:%s" % c[1])
+        if isinstance(o, str) and o.startswith("err"):
+            f.append(o)
+    return f
+
+
+# =====================================================================================================
+# ==== field ==========================================================================================
+# =====================================================================================================
+def gen_field(rng, tier):
     fam = rng.choice([32, 64])
     ids = (c01.IDS32 if fam == 32 else c01.IDS64)
     if rng.random() < 0.6:
@@ -46,28 +259,375 @@ def gen(rng, tier, idx):
         elif r < 0.2:
             cmds.append(["unindex", d])
         elif r < 0.4:
-            cmds.append([rng.choice(["index", "reindex"]), d, "none"])
+            cmds.append([_index_verb(rng), d, "none"])
         else:
-            cmds.append([rng.choice(["index", "reindex"]), d, rng.choice(used)])
-        cmds.append(["obs"])
-        if rng.random() < 0.3:
-            cmds.append(["obsfresh"])
-        if rng.random() < 0.5:
-            cmds.append(["repr", d])
-        if rng.random() < 0.2:
-            cmds.append(["repr", rng.choice(ids)])
-    cmds.append(["obsfresh"])
+            cmds.append([_index_verb(rng), d, rng.choice(used)])
+        _probes(rng, cmds, d, ids, fresh=False)
+    _tail(cmds, ids, fresh=False)
     cfg = [["cfg", "family", fam], ["cfg", "vtype", rng.choice(["int", "str"])],
            ["cfg", "disc", rng.choice(["attr", "callable"])]]
-    return {"session": kind, "cfg": cfg, "cmds": cmds}
+    return {"session": "field", "cfg": cfg, "cmds": cmds}
+
+
+class FieldObs(_Base):
+    def __init__(self, hyp, cfg):
+        self.f = c01.FieldImpl(hyp, cfg)          # pools, discriminator, family: as in C01
+        self.mk = self.f.mk
+        self.idx = self.f.idx
+        self.setup(cfg)
+
+    def doc(self, toks):
+        return self.f.doc(toks[0])
+
+    def uv(self, idx):
+        return " ".join(map(str, sorted(self.f.rank[repr(v)] for v in idx.unique_values())))
+
+    def canon_repr(self, r):
+        return str(self.f.rank.get(r, "?" + r))     # document_repr = repr(value)
+
+
+def features_field(case, outs):
+    return _hist_features(case, outs, lambda v: "none" if v == ["none"] else "val")
+
+
+KIND["field"] = dict(gen=gen_field, impl=FieldObs, features=features_field,
+                     imports="HypatiaProofs.Properties.C06Field",
+                     theorems=["Hyp.Field.c06_field_" + t for t in SEVEN])
+
+
+# =====================================================================================================
+# ==== keyword ========================================================================================
+# =====================================================================================================
+KW_THRS = [1, 1, 2, 2, 3, 3, 64]
+
+
+def gen_keyword(rng, tier):
+    fam = rng.choice([32, 64])
+    ids = (c02.IDS32 if fam == 32 else c02.IDS64)
+    if rng.random() < 0.7:
+        ids = ids[:rng.randrange(2, 8)]
+    used = sorted(rng.sample(range(len(c02.STR_POOL)), rng.randrange(2, 6)))
+    maxlen = 40 if tier == "quick" or rng.random() < 0.9 else 300
+    cmds = []
+    cur = {}                                # docid -> keyword set (documents with at least one keyword)
+    for _ in range(rng.randrange(4, maxlen)):
+        r = rng.random()
+        d = rng.choice(ids)
+        if cur and rng.random() < 0.4:
+            d = rng.choice(sorted(cur))
+        if r < 0.04:
+            cmds.append(["reset"])
+            cur = {}
+        elif r < 0.16:
+            if rng.random() < 0.4:
+                d = rng.choice(ids)        # often unknown
+            cmds.append(["unindex", d])
+            cur.pop(d, None)
+        elif r < 0.32:
+            cmds.append([_index_verb(rng), d, "none"])
+            cur.pop(d, None)
+        elif r < 0.40:
+            cmds.append([_index_verb(rng), d])                  # empty keyword list
+            cur.pop(d, None)
+        elif r < 0.42:
+            cmds.append(["indexstr", d])
+        elif r < 0.47:
+            cmds.append(["optimize"])
+        elif r < 0.53:
+            cmds.append(["setthr", rng.choice(KW_THRS)])
+            if rng.random() < 0.5:
+                cmds.append(["optimize"])
+        else:
+            new = c02.next_keywords(rng, used, sorted(cur.get(d, ())))
+            cmds.append([_index_verb(rng), d] + new)
+            cur[d] = set(new)
+        _probes(rng, cmds, d, ids, numdocs=True)
+    _tail(cmds, ids, numdocs=True)
+    cfg = [["cfg", "family", fam], ["cfg", "vtype", rng.choice(["int", "str"])],
+           ["cfg", "disc", rng.choice(["attr", "callable"])], ["cfg", "thr", rng.choice(KW_THRS)]]
+    return {"session": "keyword", "cfg": cfg, "cmds": cmds}
+
+
+_OOSET = re.compile(r"^OOSet\(\[(.*)\]\)$", re.S)
+
+
+def parse_ooset(r):
+    """members of an `OOSet` repr, in the order shown; None if the string is something else"""
+    m = _OOSET.match(r)
+    if not m:
+        return None
+    try:
+        return list(ast.literal_eval("[" + m.group(1) + "]"))
+    except (ValueError, SyntaxError):
+        return None
+
+
+class KeywordObs(_Base):
+    def __init__(self, hyp, cfg):
+        import BTrees
+        from hypatia.keyword import KeywordIndex
+        self.pool = c02.STR_POOL if cfg.get("vtype", "str") == "str" else c02.INT_POOL
+        self.rank = {repr(v): i for i, v in enumerate(self.pool)}
+        fam = BTrees.family32 if cfg.get("family") == 32 else BTrees.family64
+        if cfg.get("disc") == "callable":
+            disc = lambda obj, default: getattr(obj, "x", default)  # noqa: E731
+        else:
+            disc = "x"
+        self.idx = KeywordIndex(disc, family=fam)
+        self.idx.tree_threshold = int(cfg.get("thr", 64))
+
+        def mk():
+            f = KeywordIndex(disc, family=fam)
+            f.tree_threshold = self.idx.tree_threshold      # the instance's current threshold
+            return f
+        self.mk = mk
+        self.n = 0
+        self.setup(cfg)
+
+    def doc(self, toks):
+        o = c02.Doc()
+        self.n += 1
+        if toks == ["none"]:
+            return o
+        kws = [self.pool[r] for r in toks]
+        o.x = kws if self.n % 2 else tuple(kws)
+        return o
+
+    def uv(self, idx):
+        return " ".join(map(str, sorted(self.rank[repr(v)] for v in idx.unique_values())))
+
+    def canon_repr(self, r):
+        items = parse_ooset(r)
+        if items is None or any(not (a < b) for a, b in zip(items, items[1:])):
+            return "unexpected-repr " + r.replace(" ", "_")
+        ranks = [self.rank.get(repr(v)) for v in items]
+        if None in ranks:
+            return "unexpected-repr " + r.replace(" ", "_")
+        return "[" + " ".join(map(str, sorted(ranks))) + "]"
+
+    def execute_more(self, c):
+        op = c[0]
+        if op == "indexstr":
+            # rejected with TypeError; the code clears a 'withdrawn' mark first (KeywordSpec.stepT)
+            if self.current.get(c[1]) == ["none"]:
+                del self.current[c[1]]
+            o = c02.Doc()
+            o.x = "ab"
+            self.idx.index_doc(c[1], o)
+            return "ok"
+        if op == "optimize":
+            self.idx.optimize()
+            return "ok"
+        if op == "setthr":
+            self.idx.tree_threshold = c[1]
+            return "ok"
+        raise ValueError(c)
+
+
+def features_keyword(case, outs):
+    def cls(v):
+        return "none" if v == ["none"] else "[]" if not v else "kw"
+    f = _hist_features(case, outs, cls)
+    f.append("thr0:%s" % c02.cfgdict(case).get("thr"))
+    cur = {}
+    for c in case["cmds"]:
+        if c[0] in ("index", "reindex", "unreindex") and c[2:] != ["none"] and c[2:]:
+            prev, new = cur.get(c[1]), set(c[2:])
+            if prev is not None:
+                f.append("kwchange:" + ("same" if new == prev else "grow" if new > prev else "shrink" if new < prev
+                                        else "disjoint" if not (new & prev) else "mixed"))
+            if len(new) < len(c[2:]):
+                f.append("kw:dup")
+            cur[c[1]] = new
+        elif c[0] in ("index", "reindex", "unreindex", "unindex"):
+            cur.pop(c[1], None)
+        elif c[0] == "reset":
+            cur = {}
+    return f
+
+
+KIND["keyword"] = dict(gen=gen_keyword, impl=KeywordObs, features=features_keyword,
+                       imports="HypatiaProofs.Properties.C06Keyword",
+                       theorems=["Hyp.Keyword.c06_keyword_" + t for t in SEVEN + (
+                           "history_independent_get", "reset_then", "representation_invisible")])
+
+
+# =====================================================================================================
+# ==== facet ==========================================================================================
+# =====================================================================================================
+def gen_facet(rng, tier):
+    fam = rng.choice([32, 64])
+    ids = (c13.IDS32 if fam == 32 else c13.IDS64)
+    if rng.random() < 0.7:
+        ids = ids[:rng.randrange(2, 8)]
+    r = rng.random()
+    if r < 0.35:
+        facets = list(rng.choice([["a", "a:b", "a:b:c", "a:b:c:x"], ["a", "ab", "abc"], ["é", "é:中", "中"],
+                                  ["a:b", "c", "a", "b:c"], ["ab", "c", "a", "bc"], ["", "a:", ":a", "a"]]))
+        facets = facets[:rng.randrange(1, len(facets) + 1)]
+    else:
+        facets = rng.sample(c13.FACET_POOL, rng.randrange(1, 7))
+    if rng.random() < 0.1:
+        facets.append(facets[0])
+    maxlen = 40 if tier == "quick" or rng.random() < 0.9 else 300
+    cmds = []
+    last = {}
+    for _ in range(rng.randrange(4, maxlen)):
+        r = rng.random()
+        d = rng.choice(ids)
+        if last and rng.random() < 0.4:
+            d = rng.choice(sorted(last))
+        if r < 0.04:
+            cmds.append(["reset"])
+            last = {}
+        elif r < 0.16:
+            if rng.random() < 0.4:
+                d = rng.choice(ids)
+            cmds.append(["unindex", d])
+            last.pop(d, None)
+        elif r < 0.30:
+            cmds.append([_index_verb(rng), d, "none"])
+            last[d] = ["none"]
+        elif r < 0.32:
+            # the value `()`: `FacetIndex.index_doc` tests `value is _marker` with `_marker = ()`, and the empty
+            # tuple is a singleton, so this value takes the no-value branch (the id becomes not-indexed, unlike
+            # the empty list, which is forgotten).  Modelled as the code behaves: the model and the table get
+            # `none` (see model_cmd); the fresh real index is fed `()` again.  Reported, not part of C06's claim.
+            cmds.append([_index_verb(rng), d, "unit"])
+            last[d] = ["none"]
+        elif r < 0.37:
+            cmds.append(["optimize"])
+        elif r < 0.42:
+            cmds.append(["setthr", rng.choice(KW_THRS)])
+        else:
+            prev = last.get(d)
+            if prev and prev != ["none"] and rng.random() < 0.25:
+                ps = list(prev)                                          # identical content again
+                if rng.random() < 0.5:
+                    rng.shuffle(ps)
+            else:
+                ps = [c13.enc(p) for p in c13.gen_paths(rng, facets)]
+            cmds.append([_index_verb(rng), d] + ps)
+            last[d] = ps
+        _probes(rng, cmds, d, ids, numdocs=True)
+    _tail(cmds, ids, numdocs=True)
+    cfg = [["cfg", "facets"] + [c13.enc(f) for f in facets], ["cfg", "family", fam],
+           ["cfg", "disc", rng.choice(["attr", "callable"])], ["cfg", "thr", rng.choice(KW_THRS)]]
+    return {"session": "facet", "cfg": cfg, "cmds": cmds}
+
+
+class FacetObs(_Base):
+    def __init__(self, hyp, cfg):
+        import BTrees
+        from hypatia.facet import FacetIndex
+        fam = BTrees.family32 if cfg.get("family") == 32 else BTrees.family64
+        if cfg.get("disc") == "callable":
+            disc = lambda obj, default: getattr(obj, "x", default)  # noqa: E731
+        else:
+            disc = "x"
+        facets = [c13.dec(t) for t in cfg.get("facets", [])]
+        self.idx = FacetIndex(disc, facets, family=fam)
+        self.idx.tree_threshold = int(cfg.get("thr", 64))
+
+        def mk():
+            f = FacetIndex(disc, facets, family=fam)
+            f.tree_threshold = self.idx.tree_threshold
+            return f
+        self.mk = mk
+        self.n = 0
+        self.setup(cfg)
+
+    def doc(self, toks):
+        o = c13.Doc()
+        self.n += 1
+        if toks == ["none"]:
+            return o
+        if toks == ["unit"]:
+            o.x = ()            # FacetIndex._marker is `()`: CPython's empty tuple IS the marker (see gen_facet)
+            return o
+        ps = [c13.dec(t) for t in toks]
+        o.x = tuple(ps) if ps and self.n % 2 == 0 else ps      # an empty value is always the empty *list*
+        return o
+
+    @staticmethod
+    def show(fs):
+        return " ".join(e for _, e in sorted((c13.rank_key(v), c13.enc(v)) for v in fs))
+
+    def uv(self, idx):
+        return self.show(idx.unique_values())
+
+    def canon_repr(self, r):
+        items = parse_ooset(r)
+        if items is None or any(not (a < b) for a, b in zip(items, items[1:])):
+            return "unexpected-repr " + r.replace(" ", "_")
+        try:
+            return "[" + self.show(items) + "]"
+        except (KeyError, AttributeError):
+            return "unexpected-repr " + r.replace(" ", "_")
+
+    def execute_more(self, c):
+        op = c[0]
+        if op == "optimize":
+            self.idx.optimize()
+            return "ok"
+        if op == "setthr":
+            self.idx.tree_threshold = c[1]
+            return "ok"
+        raise ValueError(c)
+
+
+def features_facet(case, outs):
+    fs = {c13.dec(t) for t in c13.cfgdict(case).get("facets", [])}
+
+    def cls(v):
+        if v == ["none"] or v == ["unit"]:
+            return "none" if v == ["none"] else "unit()"
+        if not v:
+            return "[]"
+        m = set()
+        for p in v:
+            segs = c13.dec(p).split(":")
+            m.update(":".join(segs[:i]) for i in range(1, len(segs) + 1) if ":".join(segs[:i]) in fs)
+        return "match-none" if not m else "match-1" if len(m) == 1 else "match-nested" if any(
+            a != b and b.startswith(a + ":") for a in m for b in m) else "match-many"
+    f = _hist_features(case, outs, cls)
+    f.append("nfacets:%d" % len(fs))
+    return f
+
+
+KIND["facet"] = dict(gen=gen_facet, impl=FacetObs, features=features_facet,
+                     imports="HypatiaProofs.Properties.C06Facet",
+                     theorems=["Hyp.Facet.c06_facet_" + t for t in SEVEN + (
+                         "history_independent_get", "reset_then")])
+
+
+# =====================================================================================================
+# ==== dispatch (kind-independent) ====================================================================
+# =====================================================================================================
+KINDS = sorted(KIND)
+AUDIT_IMPORTS = [KIND[k]["imports"] for k in KINDS]
+THEOREMS = [t for k in KINDS for t in KIND[k]["theorems"]]
+
+
+def gen(rng, tier, idx):
+    return KIND[rng.choice(KINDS)]["gen"](rng, tier)
 
 
 def model_cmd(c):
-    return ["index"] + list(c[1:]) if c[0] == "reindex" else c
+    # for the model `reindex_doc` and `unindex_doc; index_doc` are ONE index step: that they agree with the
+    # implementation's two entry points is the property's "reindex = unindex + index"
+    if c[0] in ("index", "reindex", "unreindex"):
+        # facet only: the value `()` is the class's marker object, i.e. "no value" (see gen_facet)
+        return ["index", c[1]] + (["none"] if list(c[2:]) == ["unit"] else list(c[2:]))
+    return c
+
+
+def cfgdict(case):
+    return {c[1]: (c[2:] if c[1] == "facets" else c[2]) for c in case.get("cfg", [])}
 
 
 def impl_run(hyp, case):
-    im = c01.FieldImpl(hyp, c01.cfgdict(case))
+    im = KIND[case["session"]]["impl"](hyp, cfgdict(case))
     return [im.execute(c) for c in case["cmds"]]
 
 
@@ -76,23 +636,4 @@ def nontrivial(case, outs):
 
 
 def features(case, outs):
-    f = ["kind:" + case["session"]]
-    last = {}
-    for c, o in zip(case["cmds"], outs):
-        if c[0] in ("index", "reindex"):
-            prev = last.get(c[1], "unknown")
-            f.append("%s:%s->%s%s" % (c[0], "none" if prev == "none" else "unknown" if prev == "unknown" else "val",
-                                      "none" if c[2] == "none" else "val",
-                                      "(same)" if prev == c[2] else ""))
-            last[c[1]] = c[2]
-        elif c[0] == "unindex":
-            f.append("unindex:" + ("known" if c[1] in last else "unknown"))
-            last.pop(c[1], None)
-        elif c[0] == "reset":
-            last = {}
-            f.append("reset")
-        elif c[0] == "repr":
-            f.append("repr:" + ("default" if o == "none" else "value"))
-        if isinstance(o, str) and o.startswith("err"):
-            f.append(o)
-    return f
+    return KIND[case["session"]]["features"](case, outs)
